@@ -382,6 +382,99 @@ def range_cases(ctx, rnd):
     return cases
 
 
+# second valid element per kind for the whole-field (view) assignments: a boundary where there is one
+SECOND = {"int32": "2147483647", "sint32": "-2147483648", "sfixed32": "2147483647", "uint32": "4294967295", "fixed32": "4294967295",
+          "int64": "9223372036854775807", "sint64": "-9223372036854775808", "sfixed64": "9223372036854775807",
+          "uint64": "18446744073709551615", "fixed64": "18446744073709551615", "bool": "False", "string": '"\\u00e9"',
+          "float": "-2.25", "double": "1e300", "bytes": 'b"\\xff\\x00"', "enum": "{E}.EMIN", "msg": "{T}(i = 2)",
+          "enumf": "{F}.F6", "msgu": "{U}(i = 2)"}
+PRESET2 = dict(PRESET, enumf="{F}.F1", msgu="{U}(i = 7)")
+
+
+def view_cases(ctx, first_id):
+    """A repeated / map field assigned from a VIEW of a field of ANOTHER message (and from list(view) /
+    dict(view) as controls).  Pairs: same domain (must copy exactly), same kind but another domain
+    (another enum type, another message type, proto2 text that is not UTF-8 into proto3), other kinds."""
+    def names(syn):
+        p3 = syn == "p3"
+        return {"{E}": "E3" if p3 else "E", "{F}": "F3" if p3 else "F", "{T}": "T3" if p3 else "T", "{U}": "U3" if p3 else "U"}
+
+    def sub(t, syn):
+        for a, b in names(syn).items():
+            t = t.replace(a, b)
+        return t
+    pairs = []   # (label, src syn, src kind, content, dst syn, dst kind)
+    for syn in ("p2", "p3"):
+        for kind in KINDS + ["enumf", "msgu"]:
+            pairs.append(("same", syn, kind, [PRESET2.get(kind, "7"), SECOND[kind]], syn, kind))
+        # same kind, another domain
+        pairs += [("enum-type", syn, "enum", ["{E}.E1", "{E}.E5"], syn, "enumf"),
+                  ("enum-type", syn, "enum", ["{E}.E1"], syn, "enumf"),          # the number exists in F, the type differs
+                  ("enum-type", syn, "enumf", ["{F}.F1", "{F}.F6"], syn, "enum"),
+                  ("enum-type", syn, "enumf", ["{F}.F6"], syn, "enum"),
+                  ("msg-type", syn, "msg", ["{T}(i = 1)"], syn, "msgu"),
+                  ("msg-type", syn, "msgu", ["{U}(i = 1)", "{U}()"], syn, "msg"),
+                  # other kinds whose domains overlap only partly
+                  ("kind", syn, "uint32", ["7", "4294967295"], syn, "int32"),
+                  ("kind", syn, "int64", ["7", "-1"], syn, "uint64"),
+                  ("kind", syn, "int64", ["7", "8"], syn, "int32"),
+                  ("kind", syn, "int32", ["7", "-8"], syn, "sint32"),
+                  ("kind", syn, "bytes", ['b"ok"'], syn, "string"),
+                  ("kind", syn, "string", ['"ok"'], syn, "bytes"),
+                  ("kind", syn, "double", ["1.5", "1e300"], syn, "float"),
+                  ("kind", syn, "int32", ["0", "1"], syn, "enum"),
+                  ("kind", syn, "int32", ["0", "6"], syn, "enum")]
+    # across the two files: the same kinds, but the enum / message types are different types and
+    # proto3 text must be UTF-8
+    for a, b in (("p2", "p3"), ("p3", "p2")):
+        pairs += [("syntax", a, "string", ['"ok"', '"\\u00e9"'], b, "string"),
+                  ("syntax-utf8", a, "string", ['"ok"', "BAD_FF"], b, "string"),
+                  ("syntax-utf8", a, "string", ["BAD_TRUNC"], b, "string"),
+                  ("syntax", a, "int32", ["7", "-2147483648"], b, "int32"),
+                  ("syntax", a, "uint64", ["18446744073709551615"], b, "uint64"),
+                  ("syntax", a, "bytes", ['b"\\xff"'], b, "bytes"),
+                  ("syntax-type", a, "enum", ["{E}.E1"], b, "enum"),
+                  ("syntax-type", a, "msg", ["{T}(i = 1)"], b, "msg")]
+    cases = []
+    for label, ssyn, skind, content, dsyn, dkind in pairs:
+        if ssyn == "p3" and any(c.startswith("BAD_") for c in content):
+            continue        # a proto3 source cannot hold such text
+        SK, DK = ("K3" if ssyn == "p3" else "K"), ("K3" if dsyn == "p3" else "K")
+        content = [sub(c, ssyn) for c in content]
+        dpre = sub(PRESET2.get(dkind, "7"), dsyn)
+        forms = [("list", "r_" + skind, "r_" + dkind, "[%s]" % ", ".join(content), "[%s]" % dpre, "string"),
+                 ("mapval", "mv_" + skind, "mv_" + dkind, "{%s}" % ", ".join('"k%d": %s' % (i, c) for i, c in enumerate(content)),
+                  '{"p": %s}' % dpre, "string")]
+        if skind in KEY_KINDS and dkind in KEY_KINDS:
+            forms.append(("mapkey", "mk_" + skind, "mk_" + dkind, "{%s}" % ", ".join("%s: %d" % (c, i + 1) for i, c in enumerate(content)),
+                          "{%s: 7}" % dpre, dkind))
+        for form, sf, df, ssrc, dsrc, kk in forms:
+            if form == "list":
+                rv, rk, copy = "lambda x: list(x.%s)", "lambda x: []", "list(s.%s)" % sf
+            elif form == "mapval":
+                rv, rk, copy = "lambda x: [x.%s[k] for k in x.%s]", "lambda x: [k for k in x.%s]", "dict(s.%s)" % sf
+            else:
+                rv, rk, copy = "lambda x: [k for k in x.%s]", "lambda x: []", "dict(s.%s)" % sf
+            def lam(t, f):
+                return t % ((f,) * t.count("%s"))
+            rt = {"b": "proto.unmarshal(%s, proto.marshal(m))" % DK, "t": "proto.unmarshal_text(%s, proto.marshal_text(m))" % DK}
+            for variant, rhs in (("view", "s.%s" % sf), ("copy", copy)):
+                cases.append({
+                    "id": first_id + len(cases),
+                    "meta": {"syn": dsyn, "kind": dkind if form != "mapkey" else dkind, "kkind": "string", "form": form,
+                             "pos": "%s_%s" % (form, variant), "shape": "viewlist" if form == "list" else "viewmap", "clear": "no",
+                             "src": "%s.%s=%s" % (ssyn, sf, ssrc), "hasf": "", "pair": label,
+                             "from": "%s.%s" % (ssyn, sf), "to": "%s.%s" % (dsyn, df)},
+                    "pre": ["m = %s()" % DK, "s = %s()" % SK, "s.%s = %s" % (sf, ssrc), "m.%s = %s" % (df, dsrc),
+                            "_read = " + lam(rv, df), "_readk = " + lam(rk, df), "_reads = " + lam(rv, sf), "_before = _read(m)"],
+                    "op": "m.%s = %s" % (df, rhs),
+                    "obs": [["vals", "_reads(s)"], ["before", "_before"], ["rb", "_read(m)"], ["rbk", "_readk(m)"],
+                            ["rtb", "_read(%s)" % rt["b"]], ["rtt", "_read(%s)" % rt["t"]],
+                            ["rtbk", "_readk(%s)" % rt["b"]], ["rttk", "_readk(%s)" % rt["t"]], ["printed", "str(m)"]],
+                })
+    return cases
+
+
 def exec_cases(ctx, cases, tag, sub="c20-exec"):
     fin, fout = ctx.path(tag + ".in"), ctx.path(tag + ".out")
     vlib.write_ndjson(fin, [{k: c[k] for k in ("id", "pre", "op", "obs")} for c in cases])
@@ -404,11 +497,23 @@ def record(c, r):
     if r.get("pre_err"):
         raise vlib.MachineryError("range case %d: set-up failed: %s" % (c["id"], r["pre_err"]))
     val = obs.get("val", {})
-    if not val.get("ok"):
+    if not val.get("ok") and m["shape"] not in ("viewlist", "viewmap"):
         raise vlib.MachineryError("range case %d: value %s does not evaluate: %s" % (c["id"], m["src"], val))
     before = seq_obs(obs.get("before"))
     if not before["ok"]:
         raise vlib.MachineryError("range case %d: cannot read the preset" % c["id"])
+    if m["shape"] in ("viewlist", "viewmap"):
+        vals = seq_obs(obs.get("vals"))
+        if not vals["ok"]:
+            raise vlib.MachineryError("range case %d: cannot read the source %s: %s" % (c["id"], m["src"], obs.get("vals")))
+        # the values of a map are judged with the value kind and its keys are text; in the map-key form
+        # the elements under test are the keys themselves (read by _read), the values are small ints
+        return {"id": c["id"], "syn": m["syn"], "kind": m["kind"], "kkind": m["kkind"], "shape": m["shape"], "val": {"t": "none"},
+                "vals": vals["v"], "keys": [{"t": "str", "v": [107, 48 + i]} for i in range(len(vals["v"]))] if m["form"] == "mapval" else [],
+                "op": {"ok": bool(r["op"].get("ok")), "panic": bool(r["op"].get("panic")) or any(o.get("panic") for o in obs.values())},
+                "before": before["v"], "rb": seq_obs(obs.get("rb")), "rbk": seq_obs(obs.get("rbk")),
+                "rtb": seq_obs(obs.get("rtb")), "rtt": seq_obs(obs.get("rtt")),
+                "rtbk": seq_obs(obs.get("rtbk")), "rttk": seq_obs(obs.get("rttk"))}
     has = obs.get("has", {})
     return {"id": c["id"], "syn": m["syn"], "kind": m["kind"], "shape": m["shape"], "clear": m["clear"], "val": val["v"],
             "op": {"ok": bool(r["op"].get("ok")), "panic": bool(r["op"].get("panic")) or any(o.get("panic") for o in obs.values())},
@@ -431,6 +536,10 @@ def is_utf8(codes):
 
 def range_signature(c, rec, r):
     m, vt = c["meta"], valtype(rec["val"])
+    if m["shape"] in ("viewlist", "viewmap"):
+        # whole-field assignment from a view / copy of another field
+        how = "panic" if rec["op"]["panic"] else "stored" if rec["op"]["ok"] else "refused"
+        return "proto:view-assign/%s-into-%s/%s" % (m["from"], m["to"], how)
     if rec["op"]["panic"]:
         return "proto:host-panic/%s-into-%s" % (vt, m["kind"])
     if m["kind"] == "string" and m["syn"] == "p3" and vt == "str" and not is_utf8(rec["val"]["v"]) and rec["op"]["ok"] \
@@ -442,7 +551,9 @@ def range_signature(c, rec, r):
 
 def range_part(ctx, rnd):
     cases = range_cases(ctx, rnd)
-    ctx.log("range: %d cases" % len(cases))
+    views = view_cases(ctx, len(cases) + 1)
+    cases += views
+    ctx.log("range: %d cases (%d whole-field assignments from views / copies of another field)" % (len(cases), len(views)))
     res = exec_cases(ctx, cases, "range")
     recs = [record(c, res[c["id"]]) for c in cases]
     f = ctx.path("range.ndjson")
@@ -476,6 +587,13 @@ def range_part(ctx, rnd):
                                   if not r["op"]["ok"] and not r["op"]["panic"] and r["rb"]["ok"] and r["rb"]["v"] != r["before"])
     per = collections.Counter((c["meta"]["kind"], c["meta"]["pos"]) for c in cases)
     verdicts = collections.Counter("ok" if r["op"]["ok"] else "panic" if r["op"]["panic"] else "error" for r in recs)
+    vstat = collections.Counter()
+    for c in views:
+        r = recid[c["id"]]
+        vstat[(c["meta"]["pair"], "stored" if r["op"]["ok"] else "panic" if r["op"]["panic"] else "refused")] += 1
+    ctx.cov["view_assignments"] = {"records": len(views), "field_pairs": len({(c["meta"]["from"], c["meta"]["to"]) for c in views}),
+                                   "outcome_by_pair_class": {"%s:%s" % k: v for k, v in sorted(vstat.items())}}
+    ctx.samples.append({"op": views[len(views) // 3]["op"], "pre": views[len(views) // 3]["pre"][:4]})
     ctx.cov["ranges"] = {"records": len(cases), "rejected_by_spec": len(set(bad)), "outcomes": dict(verdicts),
                          "kinds": len(KINDS), "positions": sorted({c["meta"]["pos"] for c in cases}),
                          "distinct_values": len({c["meta"]["src"] for c in cases}),
